@@ -3,22 +3,23 @@
 //! Nothing here changes behavior unless a harness installs a callback.
 #![allow(missing_docs, reason = "verification-only hook module")]
 
-use std::sync::atomic::{AtomicUsize, Ordering};
+use std::ptr;
+use std::sync::atomic::{AtomicPtr, Ordering};
 
-static ON_RELEASE: AtomicUsize = AtomicUsize::new(0);
+static ON_RELEASE: AtomicPtr<()> = AtomicPtr::new(ptr::null_mut());
 
 /// Installs (or clears) a callback invoked at the end of every `release_event()`, on the
 /// releasing thread, with the address of the event whose storage was just released.
 pub fn set_on_release(callback: Option<fn(usize)>) {
-    ON_RELEASE.store(callback.map_or(0, |f| f as usize), Ordering::Relaxed);
+    ON_RELEASE.store(callback.map_or(ptr::null_mut(), |f| f as *mut ()), Ordering::Relaxed);
 }
 
 #[inline]
 pub(crate) fn notify_release(event_address: usize) {
     let raw = ON_RELEASE.load(Ordering::Relaxed);
-    if raw != 0 {
-        // SAFETY: The only non-zero values ever stored are `fn(usize)` pointers.
-        let callback = unsafe { std::mem::transmute::<usize, fn(usize)>(raw) };
+    if !raw.is_null() {
+        // SAFETY: The only non-null values ever stored are `fn(usize)` pointers.
+        let callback = unsafe { std::mem::transmute::<*mut (), fn(usize)>(raw) };
         callback(event_address);
     }
 }
